@@ -594,7 +594,7 @@ class _NoBackend(_BcryptCommon):
         self._stub_requires_backend()
         # NOTE: have to use super() here so that we don't recursively
         #       call subclass's wrapped _calc_checksum, e.g. bcrypt_sha256._calc_checksum
-        return self._calc_checksum(secret)
+        return super(bcrypt, self)._calc_checksum(secret)
 
 
 class _BcryptBackend(_BcryptCommon):
